@@ -23,6 +23,7 @@ RCLIP = 10 ** 9
 
 # the physical problem (SI); the mesh is dimensionless and shared
 PHYS = dict(XI=0.8e-6, LAM=1.6e-6, D=1.0e-7, B=4.0e-4, I=3.0e-6)
+FIELD_POINTS_UM = [[0.3, 0.2, 0.5], [-1.0, 0.7, 1.0], [2.0, -1.0, 0.4], [4.0, 3.0, 2.0], [0.0, 0.0, -0.8]]   # (x, y, z) off the film plane
 GEOM = dict(W=5.0, H=3.0, term=0.1, hole=(0.6, 0.2, 0.1), mel=0.8)      # in micrometres (the reference unit system)
 
 
@@ -207,4 +208,27 @@ def run_twin(tdgl, args, tmp):
         sol.solve_step = n
         K = sol.current_density.to("A / m").magnitude
         phys[str(frames[n]["step"])] = np.asarray(K).reshape(-1).tolist()
-    return {"u": u, "frames": frames, "K_A_per_m": phys, "nsites": len(dev.mesh.sites)}
+    # fields and potentials from the currents, at fixed PHYSICAL points, in fixed physical units (tesla, tesla * metre)
+    s_len = 10.0 ** (-6 - u[0])                 # one micrometre in length_units
+    pos = np.array(FIELD_POINTS_UM) * s_len
+    fields = {}
+    for n in sorted({len(frames) // 2, len(frames) - 1}):
+        sol.solve_step = n
+        st = str(frames[n]["step"])
+        bz = sol.field_at_position(pos, vector=False, return_sum=False)
+        bv = sol.field_at_position(pos, vector=True, return_sum=False)
+        ap = sol.vector_potential_at_position(pos, return_sum=False)
+        fields[st] = {
+            "Bz_total[T]": np.asarray(sol.field_at_position(pos, vector=False).to("T").magnitude).reshape(-1).tolist(),
+            "Bvec_total[T]": np.asarray(sol.field_at_position(pos, vector=True).to("T").magnitude).reshape(-1).tolist(),
+            "Bz_super[T]": np.asarray(bz.supercurrent.to("T").magnitude).reshape(-1).tolist(),
+            "Bvec_normal[T]": np.asarray(bv.normal_current.to("T").magnitude).reshape(-1).tolist(),
+            "A_total[T*m]": np.asarray(sol.vector_potential_at_position(pos).to("T * m").magnitude).reshape(-1).tolist(),
+            "A_applied[T*m]": np.asarray(ap["applied"].to("T * m").magnitude).reshape(-1).tolist(),
+            "A_super[T*m]": np.asarray(ap["supercurrent_density"].to("T * m").magnitude).reshape(-1).tolist(),
+            "A_normal[T*m]": np.asarray(ap["normal_current_density"].to("T * m").magnitude).reshape(-1).tolist(),
+            # the same through `units=` / with_units=False
+            "Bvec_total[T] via units=": np.asarray(sol.field_at_position(pos, vector=True, units="T", with_units=False)).reshape(-1).tolist(),
+            "A_total[T*m] via units=": np.asarray(sol.vector_potential_at_position(pos, units="T * m", with_units=False)).reshape(-1).tolist(),
+        }
+    return {"u": u, "frames": frames, "K_A_per_m": phys, "fields": fields, "nsites": len(dev.mesh.sites)}
